@@ -59,17 +59,35 @@ fn covered_bytes(b: &Block) -> Vec<(usize, &'static str)> {
     v
 }
 
+/// Does the run of the CONSISTENT chain with the same options deliver `height`? (If not, a corrupted block there is not
+/// processed at all: that is C02's business, not C09's.) Cached per (txs per block, --start).
+fn control_delivers(wk: &Worker, tpb: usize, start: Option<u64>, height: u64) -> bool {
+    use std::collections::HashMap;
+    use std::sync::Mutex;
+    static CACHE: Mutex<Option<HashMap<(usize, Option<u64>), (u64, u64)>>> = Mutex::new(None);
+    if let Some(v) = CACHE.lock().unwrap().get_or_insert_with(HashMap::new).get(&(tpb, start)) {
+        return height >= v.0 && height <= v.1;
+    }
+    let btc = coin("bitcoin");
+    let cb = chain_with(btc, tpb, 4);
+    let mut world = World::new(btc);
+    for (i, b) in cb.blocks.iter().enumerate() {
+        world.add_block(i as u64, i as u64, b);
+    }
+    let spec = RunSpec::new("bitcoin", "csvdump").verify(true).range(start, None);
+    let range = match wk.world_run(&world, &spec) {
+        Ok(r) if r.ok() => (r.declared_start().unwrap_or(0), r.declared_end().unwrap_or(0)),
+        _ => (1, 0), // the consistent chain itself is not accepted: nothing is "delivered"
+    };
+    CACHE.lock().unwrap().get_or_insert_with(HashMap::new).insert((tpb, start), range);
+    height >= range.0 && height <= range.1
+}
+
 fn judge_fail(r: &RunResult, height: u64) -> Option<(String, String)> {
     if r.stderr.contains("VERIF-TIMEOUT") {
         return Some(("machinery-timeout".into(), "".into()));
     }
     if r.code == Some(0) {
-        // a block the run itself declares outside its processed range is C02's business, not C09's
-        if let (Some(s), Some(e)) = (r.declared_start(), r.declared_end()) {
-            if height < s || height > e {
-                return None;
-            }
-        }
         return Some(("corruption-accepted".into(), format!("exit 0 although the block at height {} is corrupted; files {:?}", height, r.files.keys().collect::<Vec<_>>())));
     }
     if !r.final_files().is_empty() {
@@ -226,7 +244,17 @@ pub fn run() -> Report {
                     if acc.samples.len() < 2 && *region == "tx" {
                         acc.sample(json!({"must_fail": format!("{:?}", c), "stderr": r.stderr.lines().next()}));
                     }
-                    if let Some((sig, detail)) = judge_fail(&r, *height) {
+                    let verdict = judge_fail(&r, *height);
+                    // exit 0 with a corrupted block is judged only if the same run on the consistent chain delivers that height
+                    let verdict = match verdict {
+                        Some((sig, d)) if sig == "corruption-accepted" && !control_delivers(&wk, *txs_per_block, *start, *height) => {
+                            acc.count("flip-at-height-the-consistent-run-does-not-deliver (left to C02)", 1);
+                            let _ = (sig, d);
+                            None
+                        }
+                        v => v,
+                    };
+                    if let Some((sig, detail)) = verdict {
                         acc.disagree(&format!("{}:{}", sig, region), format!("{:?}: {}", c, detail), replay_case(&world, &spec, json!({"must": "fail", "height": height}), &r, &wk.dir));
                     }
                 }
